@@ -525,7 +525,8 @@ def install_engine_theories(Engine):
             return const_bytes(bytes(ns.as_long()))
         f = self.uf("zeros", I, BYTES)
         t = f(n)
-        path.assume(z3.Length(t) == z3.If(n >= 0, n, 0))
+        path.assume(z3.Implies(n >= 0, z3.Length(t) == n))
+        path.assume(z3.Implies(n < 0, t == z3.Empty(BYTES)))
         path.ghost.setdefault("zeros_terms", []).append((t, n))
         return t
     Engine.zeros = zeros
@@ -648,6 +649,7 @@ def install_misc_externals(reg):
         p.engine.assumption("SHA-1 / SHA-256 are uninterpreted functions (digest length 20 / 32)")
         f = p.engine.uf(h.algo, BYTES, BYTES)
         d = f(h.acc)
+        p.ghost["hashed_" + h.algo] = h.acc          # ghost: the input of the most recent digest (read by spec function hashed())
         p.assume(z3.Length(d) == (20 if h.algo == "sha1" else 32))
         return VBytes(d)
     M[("HHash", "digest")] = h_digest
